@@ -97,7 +97,7 @@ FP_IdsMarkBottom == Built => \A k \in 1..FP_NParams : (FP_Ids[k] # "None") <=> k
 
 FP_Init == /\ Init /\ fixed = {}
            /\ nObs \in 1..MaxObs /\ nTimes \in 1..MaxTimes /\ sigmaFree \in BOOLEAN
-FP_Next == Build /\ UNCHANGED <<nObs, nTimes, sigmaFree>>
+FP_Next == (Build \/ NameIt) /\ UNCHANGED <<nObs, nTimes, sigmaFree>>
 FP_Spec == FP_Init /\ [][FP_Next]_fpvars
 
 FP_Config == [subs |-> subs, nsamples |-> nSamples, nobs |-> nObs, ntimes |-> nTimes, sigmafree |-> sigmaFree,
